@@ -160,7 +160,7 @@ def _getter_v(data):
     return data + ["v"]
 
 
-PRE_TOKENS = ("none", "usr", "var", "upd", "mkp", "mkf", "cnt", "updv")
+PRE_TOKENS = ("none", "usr", "var", "upd", "mkp", "mkf", "cnt", "updv", "usrsl", "varsl")
 TERM_TOKENS = ("seq", "store", "last", "fr", "storei")
 TERM_TYPE = {"seq": "sequence", "store": "fill_compute", "storei": "fill_compute",
              "last": "fill_compute", "fr": "fill_request"}
@@ -186,6 +186,10 @@ def _pre(token, term):
     if token == "mkf":
         # consumes (deletes) output.prefix, reads id and tag
         return [lena.output.MakeFilename("f_{{id}}_{{tag}}")]
+    if token in ("usrsl", "varsl"):
+        # a mutator followed by Slice(1): a filled branch edits the first value of a block in place and
+        # signals LenaStopFill at the second one, i.e. it stops in the middle of a buffer
+        return _pre(token[:3], term) + [lena.flow.Slice(1)]
     if token == "cnt":
         # Count as an in-place mutator of passing values (not as the accumulator of the branch)
         if term == "seq":
